@@ -471,7 +471,9 @@ func (w *fdWorld) recordMeta(rep *fdRep, ops []operations.Operation, apis []stri
 						if e := n.Element(); e != nil {
 							at = e.RemovedAt()
 						}
-						if at == nil || !at.After(op.ExecutedAt()) {
+						// strictly before: a MoveLast of the last live element anchors on the element's own
+						// position, which this very operation turns into a dead slot (removedAt = its ticket)
+						if at == nil || op.ExecutedAt().After(at) {
 							m.trailingTomb = true
 						}
 					}
